@@ -101,7 +101,7 @@ def rule_R3_streq(text, mask, ctx):
         if lhs.count('(') != lhs.count(')') or lhs.count('[') != lhs.count(']'):
             continue
         neg = '!' if m.group(2) == '!=' else ''
-        eds.append((m.start(), m.end(), '%svstr_eq(&*%s, %s)' % (neg, lhs.lstrip('&'), lit), 'R3'))
+        eds.append((m.start(), m.end(), '%scrate::vstr_eq(&*%s, %s)' % (neg, lhs.lstrip('&'), lit), 'R3'))
     return eds
 
 
@@ -130,14 +130,14 @@ def rule_R7_static(text, mask, ctx):
 def rule_R4b_parse_i32(text, mask, ctx):
     eds = []
     for m in re.finditer(r'([A-Za-z_][\w.]*)\.parse::<i32>\(\)', mask):
-        eds.append((m.start(), m.end(), 'v_parse_i32(&%s)' % m.group(1), 'R4b'))
+        eds.append((m.start(), m.end(), 'crate::v_parse_i32(&%s)' % m.group(1), 'R4b'))
     return eds
 
 
 def rule_R4c_string_from(text, mask, ctx):
     eds = []
     for m in re.finditer(r'(?<![\w:])String::from\(', mask):
-        eds.append((m.start(), m.end(), 'v_string_from(', 'R4c'))
+        eds.append((m.start(), m.end(), 'crate::v_string_from(', 'R4c'))
     return eds
 
 
